@@ -36,7 +36,7 @@ try:
         res['patch_applies_fuzzy'] = rc == 0
         assert rc == 0, 'patch does not apply: ' + out[-400:]
         # refresh the stored patch against the current HEAD
-        rc, out = sh('git diff', cwd=wt)
+        rc, out = sh('git diff HEAD', cwd=wt)
         res['rebased_patch'] = out
     rc, out = sh('/venv/bin/python %s' % demo, env=env, cwd=wt, timeout=600)
     res['demo_changed'] = 'FAIL' if rc != 0 else 'rc=0 (demo does not fail!)'
